@@ -294,6 +294,60 @@ func rulePrecedenceAgree(c *Ctx, rule string) {
 		}
 		return true
 	})
+	if len(prec) == 0 {
+		// the precedences kept in a table indexed by token (`precedences[tok]`): the table
+		// the function's body refers to
+		used := map[types.Object]bool{}
+		ast.Inspect(fd.Body, func(n ast.Node) bool {
+			if id, ok := n.(*ast.Ident); ok {
+				if o := tp.TypesInfo.Uses[id]; o != nil {
+					used[o] = true
+				}
+			}
+			return true
+		})
+		for _, f := range tp.Syntax {
+			for _, d := range f.Decls {
+				gd, ok := d.(*ast.GenDecl)
+				if !ok {
+					continue
+				}
+				for _, sp := range gd.Specs {
+					vs, ok := sp.(*ast.ValueSpec)
+					if !ok {
+						continue
+					}
+					for i, nm := range vs.Names {
+						if !used[tp.TypesInfo.Defs[nm]] || i >= len(vs.Values) {
+							continue
+						}
+						cl, ok := vs.Values[i].(*ast.CompositeLit)
+						if !ok {
+							continue
+						}
+						for _, el := range cl.Elts {
+							kv, ok := el.(*ast.KeyValueExpr)
+							if !ok {
+								continue
+							}
+							id, ok := kv.Key.(*ast.Ident)
+							if !ok {
+								continue
+							}
+							tv, ok := tp.TypesInfo.Types[kv.Value]
+							if !ok || tv.Value == nil || tv.Value.Kind() != constant.Int {
+								continue
+							}
+							if sp2, ok := spell[tp.TypesInfo.Uses[id]]; ok {
+								k, _ := constant.Int64Val(tv.Value)
+								prec[sp2] = int(k)
+							}
+						}
+					}
+				}
+			}
+		}
+	}
 	var ops []string
 	for s := range goPrec {
 		ops = append(ops, s)
